@@ -143,6 +143,10 @@ func main() {
 		fmt.Fprintln(os.Stderr, "usage: check <property> quick|thorough | check --replay <file>")
 		os.Exit(2)
 	}
+	if os.Args[1] == "--race-child" {
+		raceChildMain(os.Args[2:])
+		return
+	}
 	if os.Args[1] == "--replay" {
 		b, err := os.ReadFile(os.Args[2])
 		if err != nil {
